@@ -31,6 +31,12 @@ CHECKS = {
  "C07": dict(design="3/C07", technique="explicit-state exhaustive exploration of operation histories (build / evaluate / set-config / describe / edit-frame) on the real code, each event compared with the same event in a fresh process-state; observable-snapshot invariants after every event",
    text="Stateless exhaustive exploration of histories on the real code, each from a clean forked process: all histories of <= 3 (<= 4 thorough) events over build(6 specs chosen to collide: twin formulas, same formula on other data, shared transform call texts, NaN in columns other specs use) / evaluate-common / evaluate-group (4 frames per spec: sub-frame, permuted, other mean, unseen level + new group; the caller's frame objects are reused) / set-config / model_description, plus all deviation-bounded 5-event histories [set mode, build, evaluate X, any one event incl. an in-place edit of the frame, evaluate X again]. After every event its observation must equal the one from a fresh process-state (reference table built in forked pristine processes and cross-checked in real fresh interpreters under other PYTHONHASHSEEDs), and every existing design, every earlier result, the caller's frames and namespace must be observably unchanged.",
    note="Fresh state is a process forked from the pristine parent plus fresh interpreters for the table; only observables are compared (a benign internal cache is not a violation); histories longer than the bounds are not covered."),
+ "C08": dict(design="3/C08", technique="exhaustive enumeration of row permutations (full symmetric group on 5 rows, Cayley-graph BFS to depth 2 on 8 rows), index alphabets, column orders and unused-column subsets; metamorphic comparison of two runs",
+   text="Bounded exhaustive model checking on the real design_matrices: for 42 formulas, all 120 row permutations of a 5-row frame, all frames within Cayley distance 2 of an 8-row frame (adjacent transpositions, rotation, reversal; with and without an incomplete row), 8 index alphabets incl. duplicated/mixed/MultiIndex labels, all 24 orders of four used columns and every subset of four unused columns: response, common and group matrices must be the row-permuted originals with identical labels, levels, slices and the same encoding of a probe frame; index and column changes must change nothing at all.",
+   note="Tolerance rtol 1e-9 for permuted reductions; only the 5-row space is orbit-closed; fitted parameters are observed through the encoding of a fixed probe frame."),
+ "C09": dict(design="3/C09", technique="exhaustive enumeration of missingness patterns (all single cells, all pairs in rows 0-3, whole-row patterns over column subsets) x policies against the clean-frame reference with hand-written used-variable sets",
+   text="Bounded exhaustive model checking on the real design_matrices: for 33 formulas in which 'used' is non-trivial (call arguments, keyword arguments, nested calls, operators in I()/{}, back-quoted names, interactions, group effects and factors, responses incl. calls, y[level], prop) and every missingness pattern of the space over used columns plus three unused ones (one named like a keyword argument): drop == design of the clean frame without exactly the rows missing a used variable, the three matrices row-aligned; error raises ValueError iff such a row exists; pass keeps all rows with NaN in exactly the derived columns (pointwise numeric formulas); other na_action values refused.",
+   note="The used-variable set per formula is written by hand in the check; pass is not demanded for categorical or stateful terms."),
 }
 NOT_YET = {}
 props = [json.loads(l) for l in open(os.path.join(V, "properties.jsonl"))]
